@@ -64,7 +64,12 @@ pub fn node_addr(is_v6: bool, n: u32) -> SocketAddr {
 }
 
 pub fn world_addr(is_v6: bool, n: u32) -> SocketAddr {
-    if is_v6 {
+    if is_v6 && n % 5 == 3 {
+        // every fifth IPv6 world node sits at an IPv4-mapped address (::ffff:20.x.y.z), as peers of
+        // a dual-stack socket do
+        let v4 = std::net::Ipv4Addr::new(20, (n >> 16) as u8, (n >> 8) as u8, n as u8);
+        SocketAddr::new(v4.to_ipv6_mapped().into(), 7000 + (n % 1000) as u16)
+    } else if is_v6 {
         v6(2, n as u64 + 1, 7000 + (n % 1000) as u16)
     } else {
         v4(20, (n >> 16) as u8, (n >> 8) as u8, n as u8, 7000 + (n % 1000) as u16)
@@ -144,7 +149,10 @@ impl Bed {
         self.next_client += 1;
         let port = 10_000 + (self.next_client % 50_000) as u16;
         let hi = (self.next_client / 50_000) as u8;
-        if is_v6 {
+        if is_v6 && ip % 4 == 3 {
+            // clients behind a dual-stack socket: IPv4-mapped source addresses
+            SocketAddr::new(std::net::Ipv4Addr::new(30, hi, ip, 1).to_ipv6_mapped().into(), port)
+        } else if is_v6 {
             v6(9, (ip as u64) << 8 | hi as u64, port)
         } else {
             v4(30, hi, ip, 1, port)
